@@ -36,6 +36,17 @@ CLAIMED["C26"] = ("wire", "fault_enumeration",
    "Timing side channels (CBC camouflage) are out of scope; behaviour after the first error is not asserted. Key agreement supplied by the harness.",
    "DESIGN.md section 4 H-wire")
 
+CLAIMED["C29"] = ("kex", "exploration",
+   "deterministic simulation of a real client/server handshake with an active on-path attacker, scripted plaintext peers and a faulty host-key signer; independent recomputation of the exchange hash from the wire",
+   "Real NewClientConn and NewServerConn run over a simulated link for every key exchange method x host key type. Fault-free runs: both ends must report equal (K, H), the wire monitor recomputes H from the version lines, KEXINITs and method messages it saw (binding), the pinned host key's signature must verify over H, and traffic incl. re-keys must authenticate under independently derived keys. Attacker runs: one semantic value changed before NEWKEYS (version, any KEXINIT field, public value, host key, signature, GEX p/g/request) -> neither constructor may succeed; every invalid public value of the boundary sets for every method sent to either side (enumerated completely) -> the receiving side must fail its key agreement; a server signer that lies on a re-key -> the client must not send NEWKEYS for it; DH-GEX requests from boundary values against the choose_dh rule with an independent RFC 4419 client verifying the signed hash.",
+   "Trusted: wire monitor, scheduler, instrumenter. Host-key signature verification itself uses ssh.PublicKey.Verify (C40's subject). ML-KEM ciphertexts that are well-formed but different are covered as value tampering, not as invalid values.",
+   "DESIGN.md section 4 H-kex")
+CLAIMED["C30"] = ("kex", "fault_enumeration",
+   "fault injection by an on-path attacker on the plaintext handshake: complete enumeration of single insert/delete/duplicate/swap faults per position and direction for 5 configurations, plus seeded double faults, strict re-key runs checked by the wire monitor, and non-strict runs with endpoint noise",
+   "With strict KEX offered by both real peers, every single insertion (IGNORE, DEBUG, UNIMPLEMENTED, unknown type), duplication, deletion and adjacent swap at every plaintext packet position of either direction is applied by the attacker (enumerated for 5 configurations x 2 schedules; sampled with double faults elsewhere): neither NewClientConn nor NewServerConn may succeed. After every NEWKEYS (initial and re-keys) the independent wire monitor verifies each packet's MAC/tag under sequence numbers restarting at 0. With strict mode not negotiated, IGNORE and DEBUG packets sent by the endpoints before KEXINIT, inside exchanges, after NEWKEYS and during re-keys must leave handshake and traffic unaffected.",
+   "Non-strict mode is exercised with both peers omitting the marker (guarded KEXINIT hook); a legacy peer facing a strict-capable one is not emulated. Stalled handshakes are ended by cutting the link.",
+   "DESIGN.md section 4 H-kex")
+
 NA = {
  "C01": "pure function of (key, nonce, plaintext, ad): no schedule, clock, peer, stream fault or persisted state for a simulator to own; needs an independent AEAD and input generation (differential testing)",
  "C02": "pure predicate over byte strings; tampering here is input mutation, not an in-flight fault on a stateful stream",
@@ -77,7 +88,7 @@ NA = {
 }
 
 PLANNED = {
- "C29": "H-kex", "C30": "H-kex", 
+  
  "C32": "H-sauth", "C33": "H-sauth", "C34": "H-cauth", "C35": "H-flow", "C36": "H-mux",
  "C43": "H-agent", "C47": "H-otr", "C50": "H-acme", "C51": "H-autocert",
 }
